@@ -17,11 +17,16 @@ git apply "$OUT/patch.diff" || { echo "patch failed"; rm -f $DEST; exit 3; }
 BUILD=0; go build ./... > /tmp/build-$ID.txt 2>&1 || BUILD=1
 MUT=$(run_demo mut)
 PKGS=$(git diff --name-only | grep '\.go$' | xargs -n1 dirname | sort -u | sed 's#^#./#')
+if [ -n "${CONFIRM_LITE:-}" ]; then
+  # re-validation at a later HEAD: the package tests were compared when the seed was first confirmed
+  git checkout -q -- .; rm -f $DEST; SAME="not re-run (compared at first confirmation)"
+else
 timeout 1500 go test -vet=off -count=1 $PKGS 2>&1 | grep -E "^(ok|FAIL|--- FAIL)" | sed "s/ ([0-9.]*s)//; s/\t[0-9.]*s$//" | sort > /tmp/pk-$ID-mut.txt
 git checkout -q -- .
 timeout 1500 go test -vet=off -count=1 $PKGS 2>&1 | grep -E "^(ok|FAIL|--- FAIL)" | sed "s/ ([0-9.]*s)//; s/\t[0-9.]*s$//" | sort > /tmp/pk-$ID-clean.txt
 rm -f $DEST
 SAME=differs; cmp -s /tmp/pk-$ID-mut.txt /tmp/pk-$ID-clean.txt && SAME=same
+fi
 echo "seed $ID: demo clean exit=$CLEAN (want 0), demo mutated exit=$MUT (want !=0), build=$BUILD (want 0), touched-package test outcomes: $SAME; packages: $PKGS"
 mkdir -p /verif/seeded/$ID && cp "$OUT/patch.diff" /verif/seeded/$ID/ && cp -r "$OUT/demo" /verif/seeded/$ID/ && cp "$OUT/README.md" /verif/seeded/$ID/ 2>/dev/null
-echo "{\"confirm\": {\"demo_clean_exit\": $CLEAN, \"demo_mutated_exit\": $MUT, \"build_exit\": $BUILD, \"touched_package_tests\": \"$SAME\", \"packages\": \"$PKGS\", \"demo_test\": \"$TESTFN\"}}" > /verif/seeded/$ID/confirm.json
+echo "{\"confirm\": {\"demo_clean_exit\": $CLEAN, \"demo_mutated_exit\": $MUT, \"build_exit\": $BUILD, \"touched_package_tests\": \"$SAME\", \"packages\": \"$PKGS\", \"demo_test\": \"$TESTFN\"}}" > /verif/seeded/$ID/${CONFIRM_LITE:+re}confirm.json
